@@ -50,6 +50,13 @@ def items():
             for sch in (None, "rs"):
                 for act in ACTS[:4] + ACTS2[:1]:
                     out.append(["iref", c, rc, sch, [list(a) for a in act]])
+    # inline forms introduced by CONSTRAINT <name> (on the first, an interior and the last column)
+    for c in ("a", "b", "d"):
+        out.append(["iref", c, "x", "rs", [["DELETE", "CASCADE"]], "fk_i"])
+        out.append(["iref", c, "x", None, [], "fk_i"])
+        out.append(["ick", c, c + " > 1", "ck_i"])
+        out.append(["ipk", c, "pk_i"])
+        out.append(["iuq", c, "uq_i"])
     return out
 
 
@@ -78,7 +85,18 @@ def render_item(it):
         return ("CONSTRAINT %s " % it[2] if it[2] else "") + "CHECK (%s)" % it[1]
 
 
+def iname(it):
+    """constraint name of an inline item written as CONSTRAINT <name> ..., else None"""
+    n = {"ipk": 2, "iuq": 2, "ick": 3, "iref": 5}[it[0]]
+    return it[n] if len(it) > n else None
+
+
 def render_inline(it):
+    pre = "CONSTRAINT %s " % iname(it) if iname(it) else ""
+    return pre + _render_inline(it)
+
+
+def _render_inline(it):
     k = it[0]
     if k == "ipk":
         return "PRIMARY KEY"
@@ -86,7 +104,7 @@ def render_inline(it):
         return "UNIQUE"
     if k == "ick":
         return "CHECK (%s)" % it[2]
-    _, c, rc, sch, act = it
+    _, c, rc, sch, act = it[:5]
     s = "REFERENCES %so" % ((sch + ".") if sch else "") + ("(%s)" % rc if rc else "")
     for w, a in act:
         s += " ON %s %s" % (w, a)
@@ -98,6 +116,8 @@ def compatible(a, b):
     if a[0] in pkish and b[0] in pkish:
         return False
     if a[0] == "fk" and b[0] == "fk" and ((a[2] and a[2] == b[2]) or (set(a[1]) & set(b[1]))):
+        return False
+    if is_inline(a) and is_inline(b) and iname(a) and iname(a) == iname(b):
         return False
     if a[0] == b[0] and a[0] in ("uq", "ck") and a[2] and a[2] == b[2]:
         return False
@@ -129,13 +149,21 @@ def gen_cases(tier):
         if not is_inline(i):
             for j in (0, 1, 2, 3):
                 cases.append({"items": [i], "pos": j})
+    R = [i for i in I if not two_word(i) and (i[0] not in ("fk", "iref") or (i[0] == "fk" and i[5] in ([], [["DELETE", "CASCADE"]]) and i[4] is None)
+                                               or (i[0] == "iref" and i[4] == [] and i[3] is None))]
+    # two table-level items, the first one at every interior position (before the declaration of some of its columns)
+    for a, b in itertools.permutations([i for i in R if not is_inline(i)], 2):
+        if compatible(a, b):
+            for j in (1, 2, 3):
+                cases.append({"items": [a, b], "pos": j})
     if tier == "thorough":
         R = [i for i in I if not two_word(i) and (i[0] not in ("fk", "iref") or (i[0] == "fk" and i[5] in ([], [["DELETE", "CASCADE"]]) and i[4] is None)
                                                    or (i[0] == "iref" and i[4] == [] and i[3] is None))]
         for a, b, c in itertools.permutations(R, 3):
             if compatible(a, b) and compatible(a, c) and compatible(b, c):
                 cases.append({"items": [a, b, c], "pos": "end"})
-        for a, b in itertools.permutations([i for i in R if not is_inline(i)], 2):
+        # an inline item next to a table-level item at every interior position
+        for a, b in itertools.product([i for i in R if not is_inline(i)], [i for i in R if is_inline(i)]):
             if compatible(a, b):
                 for j in (1, 2, 3):
                     cases.append({"items": [a, b], "pos": j})
@@ -237,6 +265,8 @@ def check(case, r):
             txt = ck.get("statement") if isinstance(ck, dict) else ck
             if str(txt or "").replace(" ", "") != it[2].replace(" ", ""):
                 D.append(diff("column %s check" % it[1], "inline-check-differs", it[2], ck))
+            elif iname(it) and isinstance(ck, dict) and ck.get("constraint_name") != iname(it):
+                D.append(diff("column %s check" % it[1], "inline-check-name-differs", iname(it), ck))
     for c in COLS:
         if c in cols and cols[c].get("check") and not any(it[0] == "ick" and it[1] == c for it in its):
             D.append(diff("column %s check" % c, "spurious-check", None, cols[c].get("check")))
@@ -263,10 +293,15 @@ def check(case, r):
                     fk_cols.add(c)
                     D.extend(_ref_check(cols, c, r_, sch, od, ou))
         if it[0] == "iref":
-            _, c, rc, sch, act = it
+            _, c, rc, sch, act = it[:5]
             fk_cols.add(c)
             od, ou = dict(map(tuple, act)).get("DELETE"), dict(map(tuple, act)).get("UPDATE")
             D.extend(_ref_check(cols, c, rc, sch, od, ou))
+    # ... and exactly once: constraints.references holds the named table-level FOREIGN KEY clauses and nothing else
+    tl_names = [it[2] for it in its if it[0] == "fk" and it[2]]
+    for e in cons.get("references", []):
+        if e.get("constraint_name") not in tl_names:
+            D.append(diff("constraints.references", "fk-reported-twice-or-invented", tl_names, e))
     named_cols = {c for it in its if it[0] == "fk" and it[2] for c in it[1]}
     for c in COLS:
         if c in cols and c not in fk_cols and c not in named_cols and cols[c].get("references"):
